@@ -19,7 +19,7 @@ type evt struct {
 	bytes []byte // peer messages
 }
 
-func (e evt) peer() bool { return e.tok[0] >= 'A' && e.tok[0] <= 'Z' }
+func (e evt) peer() bool { return e.tok[0] >= 'A' && e.tok[0] <= 'Z' && e.tok[0] != 'W' }
 
 type pq struct {
 	returned, finished, rrc bool
@@ -692,6 +692,16 @@ var scenarios = [][]string{
 	{"B0", "C~", "r0,0", "B1"},
 	// the peer calls an export that is an embargoed capability (F26, known finding: wedge)
 	{"B0", "b", "b", "c0,-,1", "R0,0,r10/c0/r0", "c1,h0,2", "C1,i1,10/s:/-,1,1,3"},
+	// windows (composite events W<hold>^<application event>^<peer message>):
+	// the Return of a question arrives while a call pipelined on it is still being written: the
+	// result is a capability of ours and must be embargoed (the transform was marked before the send)
+	{"B0", "b", "Wc^c0,-,1^R0,0,r10/c0/r0", "c0,-,2", "C1,i0,10/s:/-,1,1,9", "Di0,r0", "r0,0", "r1,0", "R1,0,r10/s:/-"},
+	// a Release for a freshly exported result capability arrives while its Return is being written and the
+	// Finish(releaseResultCaps) is already in: the over-release is a protocol error -> Abort, shutdown
+	{"B0", "C1,i0,10/s:/-,1,1,1", "F1,1", "Wr^r0,s:l1^L1,1", "B2"},
+	// a further pipelined call arrives while the queue of an answer is being drained (the first
+	// queued delivery not acknowledged yet): it must not overtake the queued ones
+	{"B0", "C1,i0,10/s:/-,1,1,1", "C2,a1:f0,10/s:/-,1,1,2", "C3,a1:f0,10/s:/-,1,1,3", "Wa1^r0,s:l1^C4,a1:f0,10/s:/-,1,1,4", "r1,0", "r2,0", "r3,0"},
 	// finish before return, release of result caps, repeated bootstrap (wire refs of one export)
 	{"B0", "B1", "B2", "F0,1", "F1,0", "L0,1", "C3,a2:-,10/s:/-,1,1,1", "F3,1", "r0,s:l0.l0.l1", "F2,1"},
 	// cancel, then the Return of the canceled question; id reuse
@@ -736,6 +746,9 @@ func (s *source) next() (evt, bool) {
 
 // parseEvt reads "<token>[#hex]".
 func parseEvt(s string) evt {
+	if s[0] == 'W' {
+		return evt{tok: s}
+	}
 	if i := strings.IndexByte(s, '#'); i >= 0 {
 		if e := mk(Unhx(s[i+1:])); e.tok != "" {
 			return e
@@ -743,6 +756,9 @@ func parseEvt(s string) evt {
 		return evt{tok: "G", bytes: buildMisc('U')}
 	}
 	e := evt{tok: s}
+	if s[0] == 'W' {
+		return e
+	}
 	if e.peer() {
 		// the canonical token is the projection of the message actually sent
 		return mk(tokenBytes(s))
